@@ -30,7 +30,11 @@ for log in logs:
 for (pid, n), r in sorted(res.items()):
     src = '/tmp/wt-%s/out' % pid
     k = n
-    if n >= 5:
+    if n >= 7:
+        # fourth round: /tmp/w4m-<id>/out/mutant{1,2} become <id>-7 and <id>-8
+        src = '/tmp/w4m-%s/out' % pid
+        k = n - 6
+    elif n >= 5:
         # third round: /tmp/w3m-<id>/out/mutant{1,2} become <id>-5 and <id>-6
         src = '/tmp/w3m-%s/out' % pid
         k = n - 4
